@@ -53,6 +53,13 @@ impl<R: Read> ReadChar for UTF8Input<R> {
             }
         }
 
+        // An ill-formed four-byte sequence can decode to a value above the last code point;
+        // everything downstream (identifiers, string and regular expression literals) expects
+        // at most U+10FFFF.
+        if ch > 0x0010_FFFF {
+            ch = 0xFFFD;
+        }
+
         Ok(Some(ch))
     }
 }
